@@ -317,6 +317,7 @@ pub open spec fn jf_land(s: Seq<u8>, c: int, started: bool) -> int {
     if !started { ws_end(s, c) } else { let e2 = ws_end(s, c); if 0 <= e2 < s.len() && s[e2] == 0x2C { ws_end(s, e2 + 1) } else { e2 } }
 }
 // the rest of the object from cursor c completes the record acc to (ee, rec)
+#[verifier::opaque]
 pub open spec fn jf_cont(s: Seq<u8>, c: int, acc: JF, started: bool, ee: int, rec: JF) -> bool {
     let t = jf_land(s, c, started);
     let e2 = ws_end(s, c);
@@ -329,6 +330,7 @@ pub proof fn lemma_jf_cont_land(s: Seq<u8>, c: int, acc: JF, started: bool, ee: 
         forall|k: int| c <= k < r ==> is_wsc(#[trigger] s[k]), r < s.len() ==> !is_wsc(s[r]),
     ensures r == jf_land(s, c, started)
 {
+    reveal(jf_cont);
     let t = jf_land(s, c, started);
     lemma_ws_end(s, c);
     let e2 = ws_end(s, c);
@@ -343,6 +345,7 @@ pub proof fn lemma_jf_cont_next(s: Seq<u8>, p: int, acc: JF, ee: int, rec: JF)
         jf_cont(s, jf_member(s, p, acc)->Some_0.0, jf_member(s, p, acc)->Some_0.1, true, ee, rec),
         p < jf_member(s, p, acc)->Some_0.0,
 {
+    reveal(jf_cont);
     lemma_jf_scan_step(s, p, acc);
     reveal(jf_scan);
     lemma_jf_member_end(s, p, acc);
@@ -374,7 +377,241 @@ pub proof fn lemma_jtag_bounds(s: Seq<u8>, q: int)
     lemma_jarr_bounds(s, q, true);
 }
 // the fixed header fields hold what the members read so far say (defaults for the members not seen)
+#[verifier::opaque]
 pub open spec fn jf_hdr_ok(s: Seq<u8>, o: Seq<u8>, acc: JF) -> bool {
     u64_at(o, 16) == jf_since(s, acc) && u64_at(o, 24) == jf_until(s, acc) && u32_at(o, 12) == jf_limit(s, acc)
 }
 pub open spec fn opt_pos(o: Option<usize>) -> int { match o { Some(x) => x as int, None => -1 } }
+// ---- second pass: arrays of ids / authors (k = 0) and kinds (k = 1) re-read from the recorded start ----
+pub open spec fn jarrk(s: Seq<u8>, p: int, first: bool, k: int) -> Option<(int, Seq<int>)> { if k == 1 { jnumarr(s, p, first) } else { jhexarr(s, p, first) } }
+pub open spec fn elem_end(s: Seq<u8>, t: int, k: int) -> int { if k == 1 { digits_end(s, t) } else { t + 66 } }
+pub open spec fn elem_ok(s: Seq<u8>, t: int, k: int) -> bool { if k == 1 { kind_at(s, t) } else { hexstr_at(s, t) } }
+// the rest of the array from cursor c, n elements already read, completes (ff, ps)
+#[verifier::opaque]
+pub open spec fn arr_cont(s: Seq<u8>, c: int, started: bool, k: int, ff: int, ps: Seq<int>, n: int) -> bool {
+    let t = jf_land(s, c, started);
+    let e2 = ws_end(s, c);
+    &&& 0 <= t < s.len() && 0 <= n <= ps.len()
+    &&& started ==> (0 <= e2 < s.len() && (s[e2] == 0x2C || s[e2] == 0x5D))
+    &&& if s[t] == 0x5D && (!started || t == e2) { n == ps.len() && ff == t + 1 } else { jarrk(s, t, !started, k) == Some((ff, ps.skip(n))) }
+}
+pub proof fn lemma_arr_land(s: Seq<u8>, c: int, started: bool, k: int, ff: int, ps: Seq<int>, n: int, r: int)
+    requires arr_cont(s, c, started, k, ff, ps, n), 0 <= c <= r <= s.len(),
+        forall|i: int| c <= i < r ==> is_wsc(#[trigger] s[i]), r < s.len() ==> !is_wsc(s[r]),
+    ensures r == jf_land(s, c, started)
+{
+    reveal(arr_cont);
+    let t = jf_land(s, c, started);
+    lemma_ws_end(s, c);
+    let e2 = ws_end(s, c);
+    if started && s[e2] == 0x2C { lemma_ws_end(s, e2 + 1); }
+    lemma_wsc_unique(s, c, r, t);
+}
+pub proof fn lemma_arr_start(s: Seq<u8>, a: int, k: int)
+    requires 0 <= a, jarrk(s, ws_end(s, a), true, k) is Some
+    ensures arr_cont(s, a, false, k, jarrk(s, ws_end(s, a), true, k)->Some_0.0, jarrk(s, ws_end(s, a), true, k)->Some_0.1, 0)
+{
+    reveal(arr_cont);
+    let ps = jarrk(s, ws_end(s, a), true, k)->Some_0.1;
+    assert(ps.skip(0) =~= ps);
+}
+// the cursor has landed on "]": every element has been read
+pub proof fn lemma_arr_end(s: Seq<u8>, c: int, started: bool, k: int, ff: int, ps: Seq<int>, n: int)
+    requires arr_cont(s, c, started, k, ff, ps, n), s[jf_land(s, c, started)] == 0x5D
+    ensures n == ps.len()
+{
+    reveal(arr_cont);
+    let t = jf_land(s, c, started);
+    if !(!started || t == ws_end(s, c)) {
+        // a "]" right after a comma: not an element
+        assert(jarrk(s, t, false, k) is None);
+    } else if !started {
+        if jarrk(s, t, true, k) == Some((ff, ps.skip(n))) { assert(ps.skip(n).len() == 0); }
+    }
+}
+// the cursor has landed on an element: it is element n, and after it the rest continues
+pub proof fn lemma_arr_next(s: Seq<u8>, c: int, started: bool, k: int, ff: int, ps: Seq<int>, n: int)
+    requires arr_cont(s, c, started, k, ff, ps, n), s[jf_land(s, c, started)] != 0x5D
+    ensures elem_ok(s, jf_land(s, c, started), k), n < ps.len(), ps[n] == jf_land(s, c, started),
+        arr_cont(s, elem_end(s, jf_land(s, c, started), k), true, k, ff, ps, n + 1),
+{
+    reveal(arr_cont);
+    let t = jf_land(s, c, started);
+    let rest = ps.skip(n);
+    assert(jarrk(s, t, !started, k) == Some((ff, rest)));
+    let e = elem_end(s, t, k);
+    let e2 = ws_end(s, e);
+    if k == 1 { lemma_digits_no_bracket(s, t); }
+    lemma_ws_end(s, e);
+    if s[e2] == 0x2C {
+        let p2 = ws_end(s, e2 + 1);
+        lemma_ws_end(s, e2 + 1);
+        let r2 = jarrk(s, p2, false, k)->Some_0.1;
+        assert(rest =~= seq![t] + r2);
+        assert(rest[0] == t);
+        assert(rest.skip(1) =~= r2);
+        assert(ps.skip(n + 1) =~= rest.skip(1));
+    } else {
+        assert(rest =~= seq![t]);
+        assert(rest[0] == t);
+    }
+}
+pub open spec fn hex_views(s: Seq<u8>, ps: Seq<int>) -> Seq<Seq<u8>> { Seq::new(ps.len(), |i: int| jf_hex(s, ps[i])) }
+pub open spec fn num_views(s: Seq<u8>, ps: Seq<int>) -> Seq<Seq<u8>> { Seq::new(ps.len(), |i: int| bytes16(jf_num(s, ps[i]) as u16)) }
+// ---- what every record produced by the scan satisfies (used by the second pass, which re-reads from the recorded starts) ----
+pub open spec fn tag_rec_ok(s: Seq<u8>, lp: int) -> bool {
+    let c = ws_end(s, lp + 2);
+    let v = ws_end(s, c + 1);
+    &&& 2 <= lp && lp + 2 <= s.len() && is_letter(s[lp]) && s[lp + 1] == 0x22
+    &&& 0 <= c < s.len() && s[c] == 0x3A
+    &&& 0 <= v < s.len() && s[v] == 0x5B
+    &&& jtag(s, ws_end(s, v + 1)) is Some
+}
+#[verifier::opaque]
+pub open spec fn jf_rec_ok(s: Seq<u8>, a: JF) -> bool {
+    &&& a.ids >= 0 ==> jhexarr(s, ws_end(s, a.ids), true) is Some
+    &&& a.authors >= 0 ==> jhexarr(s, ws_end(s, a.authors), true) is Some
+    &&& a.kinds >= 0 ==> jnumarr(s, ws_end(s, a.kinds), true) is Some
+    &&& a.since >= 0 ==> int_at(s, a.since)
+    &&& a.until >= 0 ==> int_at(s, a.until)
+    &&& a.limit >= 0 ==> int_at(s, a.limit)
+    &&& a.ids >= -1 && a.authors >= -1 && a.kinds >= -1 && a.since >= -1 && a.until >= -1 && a.limit >= -1
+    &&& forall|i: int| 0 <= i < a.tags.len() ==> #[trigger] tag_rec_ok(s, a.tags[i])
+}
+pub proof fn lemma_jf_member_rec_ok(s: Seq<u8>, p: int, acc: JF)
+    requires jf_member(s, p, acc) is Some, jf_rec_ok(s, acc), 0 <= p < s.len(), s[p] == 0x22
+    ensures jf_rec_ok(s, jf_member(s, p, acc)->Some_0.1)
+{
+    reveal(jf_rec_ok);
+    reveal(jf_member);
+    reveal(fkey_which);
+    let k = fkey_which(s, p);
+    let acc2 = jf_member(s, p, acc)->Some_0.1;
+    if k == 7 { }
+    else {
+        let c = ws_end(s, p + 1 + fkey_len(k));
+        lemma_ws_end(s, p + 1 + fkey_len(k));
+        let v = ws_end(s, c + 1);
+        lemma_ws_end(s, c + 1);
+        if k == 6 {
+            assert forall|i: int| 0 <= i < acc2.tags.len() implies #[trigger] tag_rec_ok(s, acc2.tags[i]) by {
+                if i < acc.tags.len() { assert(tag_rec_ok(s, acc.tags[i])); assert(acc2.tags[i] == acc.tags[i]); }
+                else { assert(acc2.tags[i] == p + 2); }
+            }
+        }
+    }
+}
+pub proof fn lemma_jf_scan_rec_ok(s: Seq<u8>, p: int, acc: JF)
+    requires jf_scan(s, p, acc) is Some, jf_rec_ok(s, acc)
+    ensures jf_rec_ok(s, jf_scan(s, p, acc)->Some_0.1)
+    decreases s.len() - p
+{
+    reveal(jf_rec_ok);
+    reveal(jf_scan);
+    lemma_jf_member_rec_ok(s, p, acc);
+    let e = jf_member(s, p, acc)->Some_0.0;
+    let acc2 = jf_member(s, p, acc)->Some_0.1;
+    let e2 = ws_end(s, e);
+    if s[e2] == 0x2C { lemma_jf_scan_rec_ok(s, ws_end(s, e2 + 1), acc2); }
+}
+pub proof fn lemma_jfilter_rec_ok(s: Seq<u8>)
+    requires jfilter(s) is Some
+    ensures jf_rec_ok(s, jfilter(s)->Some_0.1)
+{
+    reveal(jf_rec_ok);
+    let a = ws_end(s, 0);
+    let p = ws_end(s, a + 1);
+    if 0 <= p < s.len() && s[p] == 0x7D { } else { lemma_jf_scan_rec_ok(s, p, jf_empty()); }
+}
+// ---- opaque wrappers, so that the long body of parse_json_filter only moves predicates around ----
+pub proof fn lemma_jf_cont_start(s: Seq<u8>, c: int)
+    requires jfilter(s) is Some, c == ws_end(s, 0) + 1
+    ensures jf_cont(s, c, jf_empty(), false, jfilter(s)->Some_0.0, jfilter(s)->Some_0.1)
+{
+    reveal(jf_cont);
+    let t = ws_end(s, c);
+    lemma_ws_end(s, 0);
+    lemma_ws_end(s, c);
+    if !(0 <= t < s.len() && s[t] == 0x7D) { lemma_jf_scan_step(s, t, jf_empty()); }
+}
+// the loop leaves at "}" exactly when the record is complete
+pub proof fn lemma_jf_cont_end(s: Seq<u8>, c: int, acc: JF, started: bool, ee: int, rec: JF)
+    requires jf_cont(s, c, acc, started, ee, rec), 0 <= jf_land(s, c, started) < s.len(), s[jf_land(s, c, started)] == 0x7D
+    ensures ee == jf_land(s, c, started) + 1, rec == acc
+{
+    reveal(jf_cont);
+    let t = jf_land(s, c, started);
+    if !(!started || t == ws_end(s, c)) { lemma_jf_scan_step(s, t, acc); }
+}
+pub proof fn lemma_jf_cont_member(s: Seq<u8>, c: int, acc: JF, started: bool, ee: int, rec: JF)
+    requires jf_cont(s, c, acc, started, ee, rec), 0 <= jf_land(s, c, started) < s.len(), s[jf_land(s, c, started)] != 0x7D
+    ensures jf_scan(s, jf_land(s, c, started), acc) == Some((ee, rec))
+{
+    reveal(jf_cont);
+}
+pub proof fn lemma_rec_ok_fields(s: Seq<u8>, a: JF)
+    requires jf_rec_ok(s, a)
+    ensures a.ids >= 0 ==> jhexarr(s, ws_end(s, a.ids), true) is Some,
+        a.authors >= 0 ==> jhexarr(s, ws_end(s, a.authors), true) is Some,
+        a.kinds >= 0 ==> jnumarr(s, ws_end(s, a.kinds), true) is Some,
+        a.ids >= -1 && a.authors >= -1 && a.kinds >= -1,
+        forall|i: int| 0 <= i < a.tags.len() ==> #[trigger] tag_rec_ok(s, a.tags[i]),
+{
+    reveal(jf_rec_ok);
+}
+pub proof fn lemma_hdr_init(s: Seq<u8>, o: Seq<u8>)
+    requires o.len() >= 32, u32_at(o, 12) == u32::MAX, u64_at(o, 16) == 0, u64_at(o, 24) == u64::MAX
+    ensures jf_hdr_ok(s, o, jf_empty())
+{ reveal(jf_hdr_ok); }
+// one iteration of the first pass: o2 differs from o1 at most in the header field of the member just read (k), which now
+// holds that member's value
+pub proof fn lemma_hdr_step(s: Seq<u8>, o1: Seq<u8>, o2: Seq<u8>, a1: JF, a2: JF)
+    requires jf_hdr_ok(s, o1, a1), o1.len() == o2.len(), o1.len() >= 32,
+        a2.since == a1.since ==> o2.subrange(16, 24) == o1.subrange(16, 24),
+        a2.until == a1.until ==> o2.subrange(24, 32) == o1.subrange(24, 32),
+        a2.limit == a1.limit ==> o2.subrange(12, 16) == o1.subrange(12, 16),
+        a2.since != a1.since ==> (a2.since >= 0 && u64_at(o2, 16) == jf_num(s, a2.since)),
+        a2.until != a1.until ==> (a2.until >= 0 && u64_at(o2, 24) == jf_num(s, a2.until)),
+        a2.limit != a1.limit ==> (a2.limit >= 0 && u32_at(o2, 12) == (if jf_num(s, a2.limit) > u32::MAX { u32::MAX as nat } else { jf_num(s, a2.limit) })),
+    ensures jf_hdr_ok(s, o2, a2)
+{ reveal(jf_hdr_ok); }
+pub proof fn lemma_hdr_frame(s: Seq<u8>, o1: Seq<u8>, o2: Seq<u8>, a: JF)
+    requires jf_hdr_ok(s, o1, a), o1.len() == o2.len(), o1.len() >= 32, forall|i: int| 12 <= i < 32 ==> #[trigger] o2[i] == o1[i]
+    ensures jf_hdr_ok(s, o2, a)
+{
+    reveal(jf_hdr_ok);
+    assert(o2.subrange(12, 16) =~= o1.subrange(12, 16));
+    assert(o2.subrange(16, 24) =~= o1.subrange(16, 24));
+    assert(o2.subrange(24, 32) =~= o1.subrange(24, 32));
+}
+// the id / author / kind arrays written so far
+#[verifier::opaque]
+pub open spec fn pblocks(o: Seq<u8>, start: int, vals: Seq<Seq<u8>>, n: int, w: int) -> bool {
+    if w == 2 { blocks2_ok(o, start, vals, n) } else { blocks32_ok(o, start, vals, n) }
+}
+pub proof fn lemma_pblocks_empty(o: Seq<u8>, start: int, vals: Seq<Seq<u8>>, w: int)
+    ensures pblocks(o, start, vals, 0, w)
+{ reveal(pblocks); }
+pub proof fn lemma_pblocks_step(o1: Seq<u8>, o2: Seq<u8>, start: int, vals: Seq<Seq<u8>>, n: int, w: int)
+    requires pblocks(o1, start, vals, n, w), w == 2 || w == 32, 0 <= start, 0 <= n < vals.len(), o1.len() == o2.len(), start + w * (n + 1) <= o1.len(),
+        forall|i: int| start <= i < start + w * n ==> #[trigger] o2[i] == o1[i],
+        o2.subrange(start + w * n, start + w * n + w) == vals[n],
+    ensures pblocks(o2, start, vals, n + 1, w)
+{
+    reveal(pblocks);
+    if w == 2 {
+        lemma_blocks2_frame(o1, o2, start, vals, n);
+        assert forall|k: int| 0 <= k < n + 1 implies #[trigger] o2.subrange(start + 2 * k, start + 2 * k + 2) == vals[k] by { }
+    } else {
+        lemma_blocks32_frame(o1, o2, start, vals, n);
+        assert forall|k: int| 0 <= k < n + 1 implies #[trigger] o2.subrange(start + 32 * k, start + 32 * k + 32) == vals[k] by { }
+    }
+}
+pub proof fn lemma_pblocks_frame(o1: Seq<u8>, o2: Seq<u8>, start: int, vals: Seq<Seq<u8>>, n: int, w: int)
+    requires pblocks(o1, start, vals, n, w), w == 2 || w == 32, 0 <= start, 0 <= n, o1.len() == o2.len(), start + w * n <= o1.len(),
+        forall|i: int| start <= i < start + w * n ==> #[trigger] o2[i] == o1[i],
+    ensures pblocks(o2, start, vals, n, w)
+{
+    reveal(pblocks);
+    if w == 2 { lemma_blocks2_frame(o1, o2, start, vals, n); } else { lemma_blocks32_frame(o1, o2, start, vals, n); }
+}
